@@ -157,7 +157,7 @@ def stepLip4 (st : St) (ws : List String) : St × String :=
       | .ok o =>
         if o.err then (st, "err") else
         match networkFlow o.layer with
-        | .ok f => (st, s!"flow src={hexOfBytes f.src} dst={hexOfBytes f.dst}")
+        | .ok f => (st, s!"flow typ={f.typ} src={hexOfBytes f.srcBytes} dst={hexOfBytes f.dstBytes}")
         | .err _ => (st, "err")
         | .panic k => (st, "panic " ++ k.toString)
       | .err e => (st, "model-error " ++ e)
